@@ -3,3 +3,5 @@ import FxpVerif.Driver.Ops
 import FxpVerif.Lemmas.Round
 import FxpVerif.Lemmas.Overflow
 import FxpVerif.Props.C01
+import FxpVerif.Props.C03
+import FxpVerif.Props.C05
